@@ -230,7 +230,13 @@ impl CacheRead {
                     }
                     (Err(e), false) => return Err(e),
                     // skip if no object found and it's optional
-                    (Err(_), true) => continue,
+                    (Err(e), true) => {
+                        // an object that is stored but cannot be read back is corrupt, not absent
+                        if self.zip.file_names().any(|n| n == key) {
+                            return Err(e);
+                        }
+                        continue;
+                    }
                 }
             }
             Ok(())
